@@ -160,6 +160,7 @@ Registrar reg(Prop{
     "C15",
     "Cases: node id 1..127, emergency table with register bits 0..7 per error (several errors per bit, generic bit used), 2..11 (32) errors in use, history depth 0..8 (0 = 1003h absent); histories of up to 60 (120) ops: "
     "COEmcySet(err[, user data]), COEmcyClr, COEmcyReset(silent?), SDO write 0 / non-zero to 1003h:0, SDO reads of 1003h:0..n, NMT state changes and resets, valid/invalid rewrites of 1014h, ticks; mode send-faults: the CAN driver refuses the frame of a set/clear call - the frame is lost, state, register, count and history change as if it had been sent. "
+    "Mode from-mode-change-callback: the application sets or clears an error from inside CONmtModeChange during an NMT transition; the state that permits the frame is the one CONmtGetMode reports at that moment. "
     "Oracle: reference model after every step: active set (COEmcyGet), count (COEmcyCnt), 1001h bits, EMCY frames (exactly one per real transition, code, updated register byte, 5 manufacturer bytes, identifier = 1014h; none for silent reset, outside PRE-OP/OP or with an invalid COB-ID), history newest-first with its count, clear on write 0, 0609 0030h otherwise. "
     "Non-trivial: two errors sharing a register bit were active together, or the history wrapped. Distinct = distinct decoded choice sequence.",
     {Mode{"random", one_case, false, 1000000, 14000000, 0, 0, 260, 500},
